@@ -156,6 +156,14 @@ JsonTyped(v) ==
       [] v[1] = "obj"  -> <<"obj", [i \in DOMAIN v[2] |-> <<v[2][i][1], JsonTyped(v[2][i][2])>>]>>
       [] OTHER -> v
 
+\* a document read from a dump: an expiration instant was exported as its RFC 3339 text and is an instant again
+\* (C19: a collection whose documents expire is reproduced like any other); everything else stays JSON-typed
+Revive(d) ==
+    IF ObjHas(d[2], ExpiresKey) /\ ObjLookup(d[2], ExpiresKey)[1] = "timestr"
+    THEN LET t == ObjLookup(d[2], ExpiresKey) IN Set(d, ExpiresKey, <<"time", t[2], t[3]>>)
+    ELSE d
+FileDocs(f) == [i \in DOMAIN f[2] |-> Revive(f[2][i])]
+
 ---------------------------------------------------------------------------
 (* The dispatch: acceptable errors                                         *)
 NoColl(cat, c) == IF HasColl(cat, c) THEN {} ELSE {"ErrCollectionNotExist"}
@@ -201,17 +209,17 @@ Errs(cat, files, e) ==
       [] e.op = "Import" ->
             (IF HasColl(cat, e.c) THEN {"ErrCollectionExist"} ELSE {})
             \cup (IF e.path \notin DOMAIN files \/ files[e.path][1] # "docs" THEN {"other"}
-                  ELSE IF \E i \in DOMAIN files[e.path][2] :
-                             LET d == files[e.path][2][i] IN ~NeedsGen(d) /\ ~ValidDoc(d)
+                  ELSE LET ds == FileDocs(files[e.path]) IN
+                       IF \E i \in DOMAIN ds : ~NeedsGen(ds[i]) /\ ~ValidDoc(ds[i])
                        THEN {"other"}
-                  ELSE IF \E i, j \in DOMAIN files[e.path][2] :
+                       ELSE IF \E i, j \in DOMAIN ds :
                              /\ i < j
-                             /\ ~NeedsGen(files[e.path][2][i])
-                             /\ DocId(files[e.path][2][i]) = DocId(files[e.path][2][j])
+                             /\ ~NeedsGen(ds[i])
+                             /\ DocId(ds[i]) = DocId(ds[j])
                        THEN {"ErrDuplicateKey"} ELSE {})
       [] e.op = "CreateByQuery" ->
             (IF HasColl(cat, e.name) THEN {"ErrCollectionExist"} ELSE {})
-            \cup (IF e.name # e.c THEN NoColl(cat, e.c) ELSE {})
+            \cup NoColl(cat, e.c)        \* also when the source is the target itself (C13: no side effect)
 
 \* calls that may both fail and succeed in the same state
 MayOkDespiteErrs(cat, e) ==
@@ -268,8 +276,7 @@ NextCat(cat, files, e, h) ==
       [] e.op = "CreateIndex" -> PutColl(cat, e.c, [cat[e.c] EXCEPT !.idx = @ \cup {e.f}])
       [] e.op = "DropIndex"   -> PutColl(cat, e.c, [cat[e.c] EXCEPT !.idx = @ \ {e.f}])
       [] e.op = "Import" ->
-            LET ds == [i \in DOMAIN files[e.path][2] |-> files[e.path][2][i]]
-            IN InsertNext(PutColl(cat, e.c, NewColl), e.c, ds, h.ids)
+            InsertNext(PutColl(cat, e.c, NewColl), e.c, FileDocs(files[e.path]), h.ids)
       [] e.op = "CreateByQuery" ->
             PutColl(cat, e.name, [docs |-> [id \in h.sel |-> cat[e.c].docs[id]], idx |-> {}])
       [] e.op = "Reset" -> <<>>
